@@ -237,6 +237,17 @@ theorem nested_outer_state_stale_counterexample :
     (Nested.exec 1 false (Nested.ninit 2) Nested.f9Schedule).map Nested.anyStale = some true := by
   decide
 
+/-- No host is exempt (in particular not the one the outer leader runs on: its loop heads receive the
+    feedback through the same `wait_sync_state` path): the same schedule with the two hosts exchanged
+    ends with HOST 0's inner-body replica reading host 0's stale outer cell while processing host 1's
+    data of outer round 1. Observed on the real engine (corpus/C10/loops-f9-leader-host.case). -/
+theorem nested_outer_state_stale_leader_host_counterexample :
+    ((Nested.exec 1 false (Nested.ninit 2)
+      [.bodyPass 0 0, .bodyPass 1 0, .headFar 0, .headFar 1, .bodyFar 0, .bodyFar 1,
+       .innerBroadcast, .outerBroadcast, .headRecvInner 1, .headRecvOuter 1, .headRecvInner 0,
+       .bodyPass 0 1]).map fun s => s.hosts.map (·.stale)) = some [true, false] := by
+  decide
+
 /-- Candidate fix (the body `Start` waits for the lock of EVERY enclosing loop): full statement
     "`∀ schedule s, exec I true (ninit H) schedule = some s → anyStale s = false`" is NOT proved; only
     that the fixed guard rejects the witness schedule at its last step. -/
